@@ -411,6 +411,32 @@ def post_run_stages(C):
     return [('the-stages-run-once-each-in-the-order-boxes-grid-contacts', z3.BoolVal(tuple(got) == ('boxes', 'grid', 'contacts')))]
 
 
+# ---- the iteration presents the tissue to the contact model: once, on the refined meshes, before the forces are integrated -------------------------------
+def it_stage(qn, tag):
+    def on_call(C, st):
+        # only the unconditional top-level stages are recorded (a record made on one branch only would be lost at the join)
+        if tag in ('refine', 'contacts', 'integrate'): st.ghost['it_stages'] = st.ghost.get('it_stages', ()) + (tag,)
+    return Contract(qn, PROP, frame=lambda C: [('*', None)], on_call=on_call, assumed=True, name=qn + ' (any effect; call recorded)')
+
+
+def post_iteration_stages(C):
+    if C.outcome != 'ret': return []
+    got = tuple(t_ for t_ in C.post_state.ghost.get('it_stages', ()) if t_ in ('refine', 'contacts', 'integrate'))
+    return [('every-iteration-runs-the-contact-model-once-after-the-remeshing-and-before-the-integration', z3.BoolVal(got == ('refine', 'contacts', 'integrate')))]
+
+
+def build_iteration(reg):
+    hv = [it_stage('solver::save_mesh', 'save'), it_stage('cell_divider::run', 'divide'), it_stage('cell::update_face_types', 'types'),
+          it_stage('local_mesh_refiner::refine_meshes', 'refine'), it_stage('contact_model_abstract::run', 'contacts'),
+          it_stage('cell::special_polarization_update', 'polarize'), it_stage('cell::apply_internal_forces', 'internal'),
+          it_stage('abstract_statistics_writer::write_data', 'stats'), it_stage('time_integration_scheme::update_nodes_positions', 'integrate')]
+    for k in range(3):
+        reg.add_loop(LoopContract('solver::run_iteration', k, lambda L: [], modifies=['*']))
+    reg.add_loop(LoopContract('solver::run_iteration', 3, lambda L: [], modifies=['cell.local_id_']))
+    reg.add(Contract('solver::run_iteration', PROP, pre=lambda C: [('integrator-non-null', C.old.f(C.this, 'solver.time_integrator_ptr_') > 0)], post=post_iteration_stages, use=hv,
+                     name='solver::run_iteration::<the contact model runs once per iteration, between remeshing and integration>'))
+
+
 def pre_node_voxel(C):
     o = C.old
     g = grid(o, C.this)
@@ -495,6 +521,7 @@ def build(reg, cfg):
                          safety={'bounds', 'wrap', 'narrowing'}, use=[flat_contract()],
                          name='contact_node_face_via_spring::resolve_contacts::<voxel of the node> (D4, model 0)'))
     m_ = cfg['SIMUCELL3D_VERIF_CONTACT_MODEL_INDEX']
+    if m_ == 1: build_iteration(reg)
     reg.add_loop(LoopContract(RUN_CLS[m_] + '::run', 1, inv_collect, modifies=['face.global_face_id_', 'vec.len', 'vec.data.int', 'vec.epoch']))
     reg.add(Contract(RUN_CLS[m_] + '::run', PROP, pre=pre_collect, post=post_collect, slice_loop=0, setup=setup_collect, safety={'bounds'},
                      **({'prefix_loop': 2} if m_ in (1, 2) else {}),
